@@ -356,6 +356,8 @@ def c_dev16(run):
     from .rules import r15_closed
     r15_closed.check_unchecked_sites(run)
     r15_closed.check_unitquaternion_ctor(run)
+    r16_tables.tables_c19(run)
+    r16_tables.tables_c20(run)
     run.explanation = 'dev R16'
 
 
